@@ -56,7 +56,7 @@ static struct elem pool[NE];
 static int cmp_elem(const void * a, const void * b, void * p)
 {
     const int x = ((const struct elem *)a)->key, y = ((const struct elem *)b)->key;
-    (void)p;
+    h_priv_check(p, 1);
     return (x > y) - (x < y);
 }
 
@@ -202,7 +202,7 @@ static void dump(int full)
 static void reset(void)
 {
     memset(pool, 0, sizeof(pool));
-    cstl_heap_init(&heap, cmp_elem, NULL, offsetof(struct elem, hn));
+    cstl_heap_init(&heap, cmp_elem, H_PRIV(1), offsetof(struct elem, hn));
 }
 
 static long cleared[NE + 1];
